@@ -915,6 +915,18 @@ class RecurrencePlot(Cached):
             else:
                 _diagline_dist(n_time, diagline, recmat)
 
+            #  The kernel runs over one triangle only. An asymmetric matrix
+            #  (fixed local recurrence rate) has other lines in the second
+            #  triangle: count them on the transposed matrix
+            if not np.array_equal(recmat, recmat.T):
+                diagline_t = np.zeros(n_time, dtype=NODE)
+                if self.missing_values:
+                    _diagline_dist_missingvalues(
+                        n_time, diagline_t, recmat.T, mv_indices)
+                else:
+                    _diagline_dist(n_time, diagline_t, recmat.T)
+                return diagline + diagline_t
+
         #  Calculations for sequential RQA
         elif self.metric == "supremum" and self.threshold is not None:
             #  Get embedding
@@ -937,7 +949,7 @@ class RecurrencePlot(Cached):
                 "Sequential RQA is currently only available for "
                 "fixed threshold and the supremum metric.")
 
-        #  Function just runs over the upper triangular matrix
+        #  Function just runs over one triangle of the (symmetric) matrix
         return 2 * diagline
 
     @staticmethod
